@@ -262,7 +262,7 @@ def run():
     tmp = tempfile.mkdtemp(prefix="c10_", dir=SHM)
     try:
         files = []
-        nfiles = 3 if QUICK else 14
+        nfiles = 4 if QUICK else 14
         k = 0
         while len(files) < nfiles:
             if len(files) == 1:
@@ -282,7 +282,7 @@ def run():
                 continue
             path = os.path.join(tmp, "f%d.trees" % k)
             k += 1
-            mode = ["tc", "ts", "skip_tables", "skip_ref", "second", "pipe_tc", "pipe_ts"][len(files) % 7] if not QUICK else ["tc", "ts", "pipe_ts"][len(files) % 3]
+            mode = ["tc", "ts", "skip_tables", "skip_ref", "second", "pipe_tc", "pipe_ts"][len(files) % 7] if not QUICK else ["tc", "ts", "pipe_ts", ["skip_tables", "skip_ref"][SEED % 2]][len(files) % 4]
             if not QUICK and len(files) < 2:
                 mode = ["tc", "ts"][len(files)]
             base_off = 0
@@ -417,6 +417,11 @@ def run():
                     who = "any"
                 else:
                     who = itemkey
+                skipped_groups = {"skip_tables": ("individuals/", "nodes/", "edges/", "migrations/", "sites/", "mutations/", "populations/",
+                                                  "provenances/", "indexes/"), "skip_ref": ("reference_sequence/",)}.get(f["mode"], ())
+                if outc == "same" and itemkey and itemkey.startswith(skipped_groups) and kind != "header":
+                    # the read path was asked not to read this item: damage to its descriptor / key is invisible to it
+                    kind, who = "skipped-item", f["mode"]
                 sig = "kastore-no-integrity:%s:%s:%s" % (kind, who, outc) if cl in (
                     "structural_byte_not_rejected", "structural_field_not_rejected") else "%s|%s|%s|%s" % (cl, kind, itemkey, o[0])
                 chk.violation("fault %s on %s load: outcome %s (%s) violates clause %s [item %s]" % (
